@@ -1,4 +1,4 @@
-CLAIM = False
+CLAIM = True
 from props.common import conc
 
 FL = {'mb': 1, 'memb': 2, 'qsbr': 3, 'bp': 4}
